@@ -10,7 +10,7 @@ from .engine import (
     BUILTIN_EXC, GHOST, KNOWN_MODULES, Frame, GhostNS, Outcome, fresh, fresh_arr_like, fresh_like, parse_expr,
 )
 from .values import (
-    NONE, Arr, BoundMethod, CDict, Closure, DictV, Exc, FuncV, Iter, ModuleV, Obj, ObjS, Opaque, Opt, Poison, Ref,
+    NONE, Arr, BoundMethod, CDict, Closure, DictV, Exc, FuncV, Iter, ModuleV, Obj, ObjS, Opaque, Opt, Poison, Ref, ViewRef,
     State, Unsupported, VClass, VStr, VTuple, fresh_name, intern_str, is_boolish, is_num, is_z3, num_pair, to_real,
     to_z3, zand, zimplies, zite, znot, zor,
 )
@@ -92,6 +92,8 @@ class Interp:
     def arr_of(self, v, st) -> Arr:
         if isinstance(v, Arr):
             return v
+        if isinstance(v, ViewRef):      # snapshot of the row as it is NOW
+            return lib.arr_index(self, st, st.heap[v.base.rid], [v.index])
         if isinstance(v, Ref) and v.what == "arr":
             return st.heap[v.rid]
         if isinstance(v, VTuple):
@@ -831,7 +833,21 @@ class Interp:
         base = self.eval(node.value, st)
         return self.getitem(base, node.slice, st, node)
 
+    def view_slice(self, vr, sl, st):
+        """AST of the subscript `(<row>, *sl)` on the viewed array; the row index travels in a hidden local."""
+        name = f"$view_row_{id(vr)}"
+        st.env[name] = vr.index
+        parts = list(sl.elts) if isinstance(sl, ast.Tuple) else [sl]
+        tup = ast.Tuple(elts=[ast.Name(id=name, ctx=ast.Load())] + parts, ctx=ast.Load())
+        return name, ast.fix_missing_locations(ast.copy_location(tup, sl))
+
     def getitem(self, base, sl, st, node=None):
+        if isinstance(base, ViewRef):
+            name, tup = self.view_slice(base, sl, st)
+            try:
+                return lib.arr_getitem(self, st, base.base, tup, node)
+            finally:
+                st.env.pop(name, None)
         if isinstance(base, Opt):
             self.safety(st, znot(base.is_none), "subscript-not-None", node)
             base = base.val
